@@ -114,13 +114,14 @@ type pcRun struct {
 	prodPoint, consPoint atomic.Value // commit point of the respective actor's write tx
 	perturb              bool
 
-	progress  [2]int64
-	inCall    [2]int32
-	produced  int64 // events completed by the producer
-	flushedCB int64
-	ackedCB   int64
-	prodDone  int32
-	prodErrs  int64
+	progress   [2]int64
+	inCall     [2]int32
+	produced   int64 // events completed by the producer
+	flushedCB  int64
+	ackedCB    int64
+	deadlocked chan struct{}
+	prodDone   int32
+	prodErrs   int64
 }
 
 func (p *pcRun) violate(rule, sig, format string, args ...interface{}) {
@@ -417,6 +418,7 @@ func (p *pcRun) watch(done chan struct{}) {
 		}
 		if blocked > 0 && other == 0 {
 			shared, pending, resFree := p.f.VerifLockState()
+			close(p.deadlocked)
 			p.violate("deadlock", "deadlock", "producer/consumer make no progress; %d go-routines parked on locks inside go-txfile; lock state shared=%d pending=%v reservedFree=%v\n%s", blocked, shared, pending, resFree, core.TrimStack(string(buf)))
 			return
 		}
@@ -443,7 +445,7 @@ func runProdConsCase(c *core.Case) *core.Result {
 	if c.Tier == "thorough" {
 		n = 500 + r.Intn(2500)
 	}
-	p := &pcRun{res: res, cfg: cfg, seed: c.Seed*1000003 + int64(c.Idx), ps: ps, n: n, perturb: r.Chance(2, 3)}
+	p := &pcRun{res: res, cfg: cfg, seed: c.Seed*1000003 + int64(c.Idx), ps: ps, n: n, perturb: r.Chance(2, 3), deadlocked: make(chan struct{})}
 	p.prodPoint.Store("idle")
 	p.consPoint.Store("idle")
 	p.disk = simdisk.New("simdisk", fc.DiskCap)
@@ -507,7 +509,12 @@ func runProdConsCase(c *core.Case) *core.Result {
 	wg.Add(2)
 	go p.producer(pr, &wg, pe)
 	go p.consumer(cr, &wg, ce, &got)
-	wg.Wait()
+	finished := make(chan struct{})
+	go func() { wg.Wait(); close(finished) }()
+	select {
+	case <-finished:
+	case <-p.deadlocked:
+	}
 	close(done)
 
 	p.mu.Lock()
@@ -538,8 +545,13 @@ func init() {
 		Assumptions: append([]string{"interleavings are sampled (Go scheduler + injected yields); evidence lists the (actor step @ other actor's commit point) pairs observed"}, qAssumptions[0], qAssumptions[2]),
 		NumCases:    func(t string) int { return tierN(t, 64, 8000) },
 		Race:        func(t string, i int) bool { return true },
-		CaseTimeout: func(t string) time.Duration { return 5 * time.Minute },
-		Run:         runProdConsCase,
+		CaseTimeout: func(t string) time.Duration {
+			if t == "thorough" {
+				return 10 * time.Minute
+			}
+			return 2 * time.Minute
+		},
+		Run: runProdConsCase,
 		Finalize: func(a *core.Aggregate) error {
 			need := []string{"consumer-ack@producer-flush-idle", "consumer-next@producer-flush-before-exclusive", "producer-write@consumer-ack-idle"}
 			for _, k := range need {
